@@ -989,7 +989,18 @@ class Logic:
                     isinstance(defs[0].targets[0], ast.Name) and e.id not in fr.func.params and \
                     isinstance(defs[0].value, (ast.BoolOp, ast.Compare, ast.UnaryOp, ast.Call)) and \
                     not any(isinstance(x, ast.Name) and x.id == e.id for x in ast.walk(defs[0].value)):
-                return self.dnf(defs[0].value, fr, pol, depth)
+                v0 = defs[0].value
+                if not isinstance(v0, ast.Call):
+                    return self.dnf(v0, fr, pol, depth)
+                # a call: only predicates (not getters/constructors) stand for their truth value
+                if isinstance(v0.func, ast.Name) and v0.func.id == 'bool':
+                    return self.dnf(v0, fr, pol, depth)
+                if depth > 0:
+                    r = self.call_dnf(v0, fr, pol, depth)
+                    if r is not None:
+                        return r
+                elif self._is_predicate_call(v0, fr):
+                    return [[self.atom(v0, fr, pol)]]
         if isinstance(e, ast.Name) and fr is not None and e.id in fr.binding:
             ex, f2 = fr.binding[e.id]
             if f2 is not None and isinstance(ex, (ast.BoolOp, ast.Compare, ast.UnaryOp, ast.Call)):
@@ -1012,6 +1023,11 @@ class Logic:
                 left = r
             return self.dnf(ast.BoolOp(op=ast.And(), values=parts), fr, pol, depth)
         return [[self.atom(e, fr, pol)]]
+
+    def _is_predicate_call(self, call, fr):
+        cals, exact = self.canon.repo.resolve_call(call, fr.func)
+        return len(cals) == 1 and exact and not cals[0].is_generator and \
+            self.canon.getter_of(cals[0]) is None and is_predicate(cals[0])
 
     def call_dnf(self, call, fr, pol, depth):
         """Expand a call to a side-effect-free topsim predicate."""
